@@ -66,6 +66,8 @@ def gen_csr(rng, big=False):
 
 
 CLOSED, OPEN, ACTIVE = 0, 1, 2
+# link class as the simulator's bookkeeping sees it: 0 = wn.pipes() (incl. check-valve pipes), 1 = wn.pumps(), 2 = wn.valves()
+KCLASS = {"pipe": 0, "cv": 0, "pump": 1, "hpump": 1, "ppump": 1, "valve": 2, "tcv": 2, "prv": 2, "psv": 2, "fcv": 2}
 
 
 def gen_net(rng, quick=True, selfloops=True, linkless_tail=False):
@@ -102,8 +104,11 @@ def gen_net(rng, quick=True, selfloops=True, linkless_tail=False):
     out = []
     for a, b in links:
         r = rng.random()
-        k = "pipe" if r < 0.7 else ("pump" if r < 0.85 else "valve")
-        if k == "valve":
+        # "pump" = power pump, "valve" = TCV (names kept from the first version of the corpus)
+        k = "pipe" if r < 0.5 else rng.choice(["cv", "pump", "hpump", "valve", "prv", "psv", "fcv"])
+        if k in ("prv", "psv", "fcv") and (kinds[a] != "J" or kinds[b] != "J"):
+            k = "valve"               # add_valve refuses PRV / PSV / FCV on a tank or reservoir
+        if KCLASS[k] == 2:
             st = rng.choice([CLOSED, OPEN, ACTIVE, ACTIVE])
         else:
             st = rng.choice([CLOSED, OPEN, OPEN])
@@ -127,10 +132,10 @@ def gen_ops(rng, net, quick=True):
             k = rng.choice(par) if par and rng.random() < 0.5 else rng.randrange(nl)
             kind = net["links"][k][2]
             if rng.random() < 0.75:
-                v = rng.choice([CLOSED, CLOSED, OPEN, ACTIVE] if kind == "valve" else [CLOSED, OPEN])
+                v = rng.choice([CLOSED, CLOSED, OPEN, ACTIVE] if KCLASS[kind] == 2 else [CLOSED, OPEN])
                 ops.append("U%d=%d" % (k, v))
             else:
-                v = rng.choice([CLOSED, OPEN, ACTIVE] if kind == "valve" else [CLOSED, ACTIVE])
+                v = rng.choice([CLOSED, OPEN, ACTIVE] if KCLASS[kind] == 2 else [CLOSED, OPEN, ACTIVE])
                 ops.append("I%d=%d" % (k, v))
         elif r < 0.8:
             ops.append("p")
@@ -157,24 +162,29 @@ def build_wn(wntr, net):
     names = {CLOSED: "CLOSED", OPEN: "OPEN", ACTIVE: "ACTIVE"}
     for j, (a, b, k, st) in enumerate(net["links"]):
         nm, na, nb = "L%d" % j, "N%d" % a, "N%d" % b
-        if k == "pipe":
-            wn.add_pipe(nm, na, nb, length=100.0, diameter=0.3, roughness=100.0, initial_status=names[st])
+        if k in ("pipe", "cv"):
+            wn.add_pipe(nm, na, nb, length=100.0, diameter=0.3, roughness=100.0, initial_status=names[st], check_valve=(k == "cv"))
         elif k == "pump":
             wn.add_pump(nm, na, nb, pump_type="POWER", pump_parameter=50.0)
             wn.get_link(nm).initial_status = wntr.network.LinkStatus(st)
+        elif k == "hpump":
+            if "HC" not in wn.curve_name_list:
+                wn.add_curve("HC", "HEAD", [(0.05, 20.0)])
+            wn.add_pump(nm, na, nb, pump_type="HEAD", pump_parameter="HC")
+            wn.get_link(nm).initial_status = wntr.network.LinkStatus(st)
         else:
-            wn.add_valve(nm, na, nb, diameter=0.3, valve_type="TCV", minor_loss=0.0, initial_setting=10.0,
-                         initial_status=names[st])
+            wn.add_valve(nm, na, nb, diameter=0.3, valve_type="TCV" if k == "valve" else k.upper(), minor_loss=0.0,
+                         initial_setting=10.0, initial_status=names[st])
     wn.reset_initial_values()
     return wn
 
 
 def net_line(net, internal0, ops):
-    order = [j for j, l in enumerate(net["links"]) if l[2] == "pipe"] + \
-            [j for j, l in enumerate(net["links"]) if l[2] == "pump"] + \
-            [j for j, l in enumerate(net["links"]) if l[2] == "valve"]
+    order = [j for j, l in enumerate(net["links"]) if KCLASS[l[2]] == 0] + \
+            [j for j, l in enumerate(net["links"]) if KCLASS[l[2]] == 1] + \
+            [j for j, l in enumerate(net["links"]) if KCLASS[l[2]] == 2]
     src = [i for i, k in enumerate(net["kinds"]) if k == "T"] + [i for i, k in enumerate(net["kinds"]) if k == "R"]
-    ls = ", ".join("%d %d %d %d %d" % (a, b, 1 if k == "valve" else 0, st, internal0[j])
+    ls = ", ".join("%d %d %d %d %d" % (a, b, KCLASS[k], st, internal0[j])
                    for j, (a, b, k, st) in enumerate(net["links"]))
     return "net %d | %s | %s | %s | %s" % (net["n"], ls, " ".join(map(str, order)), " ".join(map(str, src)), " ".join(ops))
 
@@ -260,7 +270,8 @@ class ImplSim:
             return "D=%s C=%s %s" % (_c(sim._internal_graph.data), self.changed(), self.iso())
         j, v = op[1:].split("=")
         (self.uacts if op[0] == "U" else self.iacts)[(int(j), int(v))].run_control_action()
-        return "C=%s" % self.changed()
+        link = self.wn.get_link("L%d" % int(j))
+        return "C=%s V=%d,%d,%d" % (self.changed(), int(link._user_status), int(link._internal_status), int(link.status))
 
     def cut_off(self):
         """independent reachability over the links' CURRENT status property"""
@@ -364,6 +375,117 @@ def gen_pause_run(rng):
                 pause=pause, intvals=True)
 
 
+SPECIAL_KINDS = ["hpump", "tcv", "prv", "psv", "fcv", "cv", "cvrev"]
+
+
+def gen_elem_run(rng, want=None, pause_mode=None):
+    """a small network on a tree backbone rooted at the reservoir with pumps / valves (PRV, PSV, FCV, TCV; Active, Open, Closed) /
+    check-valve pipes on backbone edges pointing away from the reservoir (benign hydraulics: pumps push and valves throttle in the
+    direction of the flow; control valves never share a node), a few extra pipes (loops, by-passes), and time controls that close
+    and reopen links -- also the special ones -- so that zones containing pumps and valves are cut off and reconnected.
+    `cvrev` is a check-valve pipe pointing TOWARDS the reservoir: it closes itself (internal status) and cuts its zone off.
+    pause_mode 'first': paused while a zone is cut off, the zone is reconnected at the first step of the continued run."""
+    n = rng.randint(4, 8)
+    kinds = ["R"] + ["J"] * (n - 1)
+    links, lk = [], []
+    for v in range(1, n):
+        u = v - 1 if rng.random() < 0.65 else rng.randrange(v)
+        links.append((u, v))
+        lk.append(["pipe"])
+    tree = list(range(len(links)))
+    nspecial = rng.randint(1, 3)
+    used = set()
+    cand = tree[:]
+    rng.shuffle(cand)
+    specials = []
+    for j in cand:
+        if len(specials) >= nspecial:
+            break
+        a, b = links[j]
+        if a in used or b in used:
+            continue
+        k = want if (want and not specials) else rng.choice(SPECIAL_KINDS)
+        if 0 in (a, b) and k in ("prv", "psv", "fcv"):
+            if want and not specials:
+                continue              # control valves cannot be attached to a reservoir / tank
+            k = rng.choice(["hpump", "tcv", "cv"])
+        if k == "hpump":
+            lk[j] = ["hpump", 0.05, round(rng.uniform(8, 25), 2)]
+        elif k == "tcv":
+            lk[j] = ["tcv", round(rng.uniform(0, 40), 2), rng.choice([ACTIVE, ACTIVE, OPEN])]
+        elif k == "prv":
+            lk[j] = ["prv", round(rng.uniform(15, 35), 2), rng.choice([ACTIVE, ACTIVE, ACTIVE, OPEN])]
+        elif k == "psv":
+            lk[j] = ["psv", round(rng.uniform(5, 20), 2), rng.choice([ACTIVE, ACTIVE, ACTIVE, OPEN])]
+        elif k == "fcv":
+            lk[j] = ["fcv", 0.5, rng.choice([ACTIVE, ACTIVE, ACTIVE, OPEN])]
+        elif k == "cv":
+            lk[j] = ["cv"]
+        else:
+            lk[j] = ["cv"]
+            links[j] = (b, a)
+        used.update((a, b))
+        specials.append(j)
+    # loops / by-passes are plain pipes; PRV / PSV / FCV stay bridges (a by-pass around a valve that fixes a head or a flow is not a
+    # benign hydraulic problem): extra pipes join nodes on the same side of every control valve
+    comp = list(range(n))
+    for j in tree:
+        if lk[j][0] not in ("prv", "psv", "fcv"):
+            a, b = links[j]
+            ca, cb = comp[a], comp[b]
+            comp = [ca if c == cb else c for c in comp]
+    for _ in range(rng.choice([0, 0, 1, 1, 2])):
+        a, b = rng.sample(range(n), 2)
+        if comp[a] == comp[b]:
+            links.append((a, b))
+            lk.append(["pipe"])
+    if rng.random() < 0.3:
+        a, b = links[rng.choice(specials)] if (specials and rng.random() < 0.5) else rng.choice(links)
+        if comp[a] == comp[b]:
+            links.append((a, b) if rng.random() < 0.5 else (b, a))
+            lk.append(["pipe"])
+    if rng.random() < 0.2:
+        leaves = [v for v in range(1, n) if sum(1 for (a, b) in links if v in (a, b)) == 1 and v not in used]
+        if leaves:
+            kinds[rng.choice(leaves)] = "T"
+    init = []
+    for j in range(len(links)):
+        if lk[j][0] in ("tcv", "prv", "psv", "fcv"):
+            init.append(lk[j][2])
+        else:
+            init.append(CLOSED if (lk[j][0] == "pipe" and rng.random() < 0.08) else OPEN)
+    steps = rng.randint(4, 6)
+    ctrls = []
+
+    def vals(j):
+        return [OPEN, ACTIVE] if lk[j][0] in ("tcv", "prv", "psv", "fcv") else [OPEN]
+
+    # the main cut: a backbone edge (special or plain) upstream of at least one special element when possible
+    cuts = [j for j in tree if any(links[s][0] >= max(links[j]) or links[s] == links[j] for s in specials)] or tree
+    cut = rng.choice(cuts)
+    t1 = rng.randint(0, steps - 2)
+    t2 = rng.randint(t1 + 1, steps)
+    ctrls.append((cut, t1, CLOSED))
+    reopen = rng.choice(vals(cut)) if lk[cut][0] != "pipe" or True else OPEN
+    ctrls.append((cut, t2, reopen))
+    for _ in range(rng.randint(0, 2)):
+        j = rng.randrange(len(links))
+        ta = rng.randint(0, steps - 1)
+        tb = rng.randint(ta + 1, steps)
+        ctrls.append((j, ta, CLOSED if rng.random() < 0.7 else rng.choice(vals(j))))
+        if rng.random() < 0.7:
+            ctrls.append((j, tb, rng.choice(vals(j))))
+    sc = dict(n=n, kinds=kinds, links=links, lk=lk, init=init, steps=steps, ctrls=ctrls, pdd=rng.random() < 0.25,
+              demands=[round(rng.uniform(0.0005, 0.004), 6) for _ in range(n)], elev=[round(rng.uniform(0, 8), 2) for _ in range(n)])
+    if pause_mode == "first" and t2 - 1 >= max(t1, 1):
+        sc["pause"] = t2 - 1            # run 1 ends with the step of hour t2-1 (zone cut off), run 2 starts at hour t2 (reopened)
+        sc["intvals"] = rng.random() < 0.5
+    elif pause_mode == "any" or (pause_mode is None and rng.random() < 0.25):
+        sc["pause"] = rng.randint(1, steps - 1)
+        sc["intvals"] = rng.random() < 0.5
+    return sc
+
+
 def build_run_wn(wntr, sc):
     from wntr.network.controls import Control, ControlAction, SimTimeCondition
 
@@ -375,9 +497,20 @@ def build_run_wn(wntr, sc):
             wn.add_tank("N%d" % i, elevation=30.0, init_level=10.0, min_level=0.0, max_level=40.0, diameter=40.0)
         else:
             wn.add_reservoir("N%d" % i, base_head=70.0)
+    names = {CLOSED: "CLOSED", OPEN: "OPEN", ACTIVE: "ACTIVE"}
     for j, (a, b) in enumerate(sc["links"]):
-        wn.add_pipe("L%d" % j, "N%d" % a, "N%d" % b, length=200.0, diameter=0.3, roughness=110.0,
-                    initial_status="CLOSED" if sc["init"][j] == CLOSED else "OPEN")
+        nm, na, nb = "L%d" % j, "N%d" % a, "N%d" % b
+        k = sc["lk"][j] if sc.get("lk") else ["pipe"]
+        st = names[sc["init"][j]]
+        if k[0] in ("pipe", "cv"):
+            wn.add_pipe(nm, na, nb, length=200.0, diameter=0.3, roughness=110.0, initial_status=st, check_valve=(k[0] == "cv"))
+        elif k[0] == "hpump":
+            wn.add_curve("C%d" % j, "HEAD", [(k[1], k[2])])
+            wn.add_pump(nm, na, nb, pump_type="HEAD", pump_parameter="C%d" % j, initial_status=st)
+        elif k[0] == "ppump":
+            wn.add_pump(nm, na, nb, pump_type="POWER", pump_parameter=k[1], initial_status=st)
+        else:
+            wn.add_valve(nm, na, nb, diameter=0.3, valve_type=k[0].upper(), minor_loss=0.0, initial_setting=k[1], initial_status=st)
     LS = wntr.network.LinkStatus
     for c, (j, t, v) in enumerate(sc["ctrls"]):
         # the INP reader stores plain ints in control actions (LINK x CLOSED AT TIME t -> value 0): both forms must behave alike
@@ -483,6 +616,21 @@ def run_oracle(wntr, sc):
                 if abs(net_in - d) > 1e-5:
                     return ("rest-not-solved", "t=%d connected junction %s: net inflow %r != demand %r" % (t, nm, net_in, d),
                             {"t": t, "junction": nm, "net_inflow": net_in, "demand": d}), stats
+        # "reconnecting restores normal results": an open link whose two ends are connected to a source carries the flow its
+        # head-flow law dictates; a reported flow of exactly 0 across a head difference (or through an open pump) is what a link
+        # still treated as isolated reports (its row is `flow = 0` and store_results writes the integer 0)
+        for j, (a, b) in enumerate(sc["links"]):
+            k = (sc["lk"][j] if sc.get("lk") else ["pipe"])[0]
+            s_j = int(st["L%d" % j])
+            if s_j == 0 or a not in seen or b not in seen or float(flow["L%d" % j]) != 0.0:
+                continue
+            ha, hb = float(res.node["head"].loc[t, "N%d" % a]), float(res.node["head"].loc[t, "N%d" % b])
+            if k in ("hpump", "ppump") or (abs(ha - hb) > 1e-6 and (k in ("pipe", "tcv") or s_j == 1)
+                                           and not (k == "cv" and ha < hb)):
+                stats["link_checked_bad"] = 1
+                return ("connected-link-zeroed", "t=%d link L%d (%s, reported status %d) joins two junctions connected to a source "
+                        "(heads %r, %r) but reports flow exactly 0" % (t, j, k, s_j, ha, hb),
+                        {"t": t, "link": "L%d" % j, "kind": k, "status": s_j, "heads": [ha, hb]}), stats
     return None, stats
 
 
